@@ -14,12 +14,24 @@
 EXTENDS Naturals, Sequences, FiniteSets
 
 \* ---------------------------------------------------------------- equality
+\* f32 elements are logged as the i32 reinterpretation of their bits.  A NaN is
+\* any pattern whose magnitude part exceeds that of infinity (0x7f800000).
+\* Two NaNs are treated as the same element: which payload / sign a NaN result
+\* carries is not part of the properties (no operator documents payload
+\* propagation); NaN against a number, or +0 against -0, still differ.
+Magnitude(b) == IF b >= 0 THEN b ELSE (b + 2147483647) + 1
+IsNaNBits(b) == Magnitude(b) > 2139095040
+SameElements(dtype, x, y) ==
+  \/ x = y
+  \/ /\ dtype = "f32" /\ Len(x) = Len(y)
+     /\ \A i \in 1..Len(x) : x[i] = y[i] \/ (IsNaNBits(x[i]) /\ IsNaNBits(y[i]))
+
 \* First aspect in which two values differ ("none" if identical in type,
 \* shape and bits).
 ValueDiff(a, b) ==
   IF a.dtype # b.dtype THEN "dtype"
   ELSE IF a.shape # b.shape THEN "shape"
-  ELSE IF a.bits # b.bits \/ a.items # b.items THEN "bits"
+  ELSE IF ~SameElements(a.dtype, a.bits, b.bits) \/ a.items # b.items THEN "bits"
   ELSE "none"
 
 OutputsDiff(x, y) ==
